@@ -75,6 +75,11 @@ def run_group(kind, terms, cancel_at, sess, rseed):
 
 def _run_group(kind, terms, cancel_at, sess, rseed):
     sims = simgroup.make_sims(terms)
+    if rseed % 3 == 1:
+        # the terminals are where an earlier (cancelled) run of a group, or
+        # a bring-up that stops at SAFE-OPERATIONAL, has left them
+        for s_ in sims:
+            s_.al_state = 4
     b = bus.Bus(sims)
     out = dict(iter_at_3cycles=None)
 
